@@ -226,6 +226,15 @@ class Check:
                 case = p
                 break
         if case is None:
+            cur = os.path.join(r["out"], "current.bin")
+            if os.path.exists(cur):
+                raw = open(cur, "rb").read()
+                n = int.from_bytes(raw[:8], "little") if len(raw) >= 8 else 0
+                if 0 < n <= len(raw) - 8:
+                    case = os.path.join(r["out"], "crash.case")
+                    with open(case, "wb") as f:
+                        f.write(raw[8:8 + n])
+        if case is None:
             raise RuntimeError("harness %s failed (rc=%s) without a case file:\n%s" % (label, rc, r["output"][-3000:]))
         data = open(case, "rb").read()
         fp = hashlib.sha256(data).hexdigest()[:12]
